@@ -261,6 +261,10 @@ func (ex *Exec) pure(v Val, t types.Type, st *State) string {
 		if v.P.NilT == "true" {
 			return ex.u.Const("ref.nil", "Ref")
 		}
+		if v.P.Cell != nil && len(v.P.Path) == 0 && !v.P.Unknown && v.P.NilT == "false" {
+			// a pointer to a whole object has a stable identity (one constant per object)
+			return ex.u.Const(fmt.Sprintf("cellref!%d", v.P.Cell.id), "Ref")
+		}
 		return ex.u.Fresh("ref", "Ref")
 	}
 	if v.Fn != nil {
@@ -1183,6 +1187,12 @@ func (ex *Exec) step(fr *Frame, st *State, in ssa.Instruction) {
 		if v.P != nil || v.Fn != nil {
 			// storing a pointer/closure into memory: keep engine-level by a side table
 			ex.storeOpaque(p.P, v, st)
+			if v.P != nil && p.P.Cell != nil && !p.P.Unknown {
+				// the SMT image of the memory cell records the identity of the object pointed to
+				if _, live := st.cells[p.P.Cell]; live && ex.u.SortOf(x.Val.Type()) == "Ref" {
+					ex.store(p.P, ex.pure(v, x.Val.Type(), st), st, in.String())
+				}
+			}
 			return
 		}
 		ex.mayPanic(st, not(p.P.NilT), "nil-dereference", in)
